@@ -363,6 +363,11 @@ def _execute(env, root_t, mine, other, op):
             onode, _ = navigate(env, other, root_t, op["path"])
             _spelling[0] += 1
             node.extend(onode if _spelling[0] % 2 else list(onode))
+        elif name == "addkw":
+            elem_t = t["t"]          # t is the array member: its element type
+            fname = env.fname(1)
+            ft = env.d(env.base(elem_t)["i"])["ms"][0]["t"]
+            node.add(**{fname: conc_scalar(env, ft, op["arg"])})
         elif name == "extendbad":
             node.extend(([node[0]] if len(node) else []) + [5])
         else:
